@@ -28,6 +28,7 @@ CLASSES = [
     "rekey", "rekey_collision", "type_only_rekey", "move", "clone", "remove", "remove_then_reinit", "shallow_copy",
     "shallow_copy_follows", "pickle_independent", "deepcopy_independent", "cache_update", "stray_planted",
     "two_projects", "update_sp_conflict", "move_collision", "clone_collision", "move_uninitialised",
+    "stray_id_named_file", "rekey_onto_id_named_file", "stale_handle_resynced_by_remove",
 ]
 ASSUMPTIONS = [
     "handles whose job was removed / re-keyed / moved through an independent handle are stale: only init() and observation apply",
@@ -93,6 +94,8 @@ OP = st.one_of(
     fd(op="update_cache", p=P),
     fd(op="new_project", p=P),
     fd(op="plant_stray", p=P, kind=st.integers(0, 4), n=st.integers(0, 2), file=st.booleans()),
+    fd(op="plant_idfile", p=P, sp=sps),
+    fd(op="remove", h=H),
 )
 
 
@@ -146,6 +149,12 @@ SMALL = [
 ]
 
 CONSTRUCTED = [
+    {"two_projects": False, "ops": [
+        {"op": "new_init", "p": 0, "sp": {"a": 0}}, {"op": "write", "h": 0, "name": "f.txt", "data": "x"}, {"op": "plant_idfile", "p": 0, "sp": {"a": 1}},
+        {"op": "sp_set", "h": 0, "k": "a", "v": 1}, {"op": "new_id", "p": 0, "k": 0, "how": "id"}, {"op": "touch_sp", "h": 1}]},
+    {"two_projects": False, "ops": [
+        {"op": "new_init", "p": 0, "sp": {"a": 0}}, {"op": "new_sp", "p": 0, "sp": {"a": 0}}, {"op": "remove", "h": 1}, {"op": "remove", "h": 0},
+        {"op": "doc_set", "h": 0, "k": "x", "v": 1}, {"op": "touch_sp", "h": 0}]},
     {"two_projects": True, "ops": [
         {"op": "new_sp", "p": 0, "sp": {"a": 0}}, {"op": "init", "h": 0}, {"op": "doc_set", "h": 0, "k": "x", "v": [1, 2]},
         {"op": "write", "h": 0, "name": "sub/h.txt", "data": "hello\n"}, {"op": "touch_sp", "h": 0}, {"op": "copy", "h": 0},
